@@ -98,6 +98,11 @@ def run(ctx) -> None:
     ctx.rule("R09.5", "each child gets a distinct fresh element of the one shared buffer list")
     ctx.rule("R09.6", "finishing child removes its buffer; last closes the source (R04.5)")
     ctx.rule("R09.7", "no other writer of buffers / shared list")
+    from . import c01
+    from .common import Relabel
+    ctx.rule("R09.11", "every item of the source reaches every child: no value an item could have (None, a constant) is read as "
+                       "\"the source is exhausted\" (R01.7, shared)")
+    c01.r01_7(Relabel(ctx, "R09.11"))
     ctx.assume("a coroutine runs without interleaving between two suspension points")
     ctx.assume("deque: append = right end, appendleft = left end, popleft = left end, pop = right end")
     u = ctx.inlined(ctx.unit("itertools.tee_peer"))
@@ -109,6 +114,15 @@ def run(ctx) -> None:
         a[0] == "usernext" and a[1] == src for a in ctx.vals.expr(u, n.info.get("value"), n))]
     pulls += [n for n in main if n.kind == "pull" and any(
         a[0] in ("user", "iter") and a[1] == src for a in ctx.vals.expr(u, n.info.get("iter"), n))]
+    # ... or through the library's anext(source[, default])
+    for n in main:
+        call = n.info.get("value") if n.kind == "await" else None
+        if n not in pulls and isinstance(call, ast.Call) and call.args:
+            r = ctx.pkg.resolve_expr_global(u.module, call.func)
+            t = ctx.pkg.lib_unit(r.qual) if r.kind == "lib" else None
+            if t is not None and ctx.pkg.canonical(t) == "builtins.anext" and any(
+                    a[0] in ("user", "iter") and a[1] == src for a in ctx.vals.expr(u, call.args[0], n)):
+                pulls.append(n)
     ctx.count("pull_sites", len(pulls))
     if not pulls:
         raise AnalysisError("tee_peer: no pull of the source iterator found (anchor moved)")
@@ -329,12 +343,12 @@ def r09_9(ctx) -> None:
               node=bad[0] if bad else None)
 
 
-def r09_8(ctx) -> None:
+def r09_8(ctx, rid: str = "R09.8", module: str = "itertools") -> None:
     """The caller's lock is opaque: whether it is used depends only on it being given (``is
     None``), never on its truth value (a lock object may well be falsy)."""
-    ctx.rule("R09.8", "the user's lock is never truth-tested: it is replaced by the no-op lock only when it is None")
+    ctx.rule(rid, "the user's lock is never truth-tested: it is replaced by the no-op lock only when it is None")
     for u in real_units(ctx):
-        if u.module.short != "itertools":
+        if u.module.short != module:
             continue
         cfg = cfg_of(u)
         for n in cfg.nodes:
@@ -348,10 +362,10 @@ def r09_8(ctx) -> None:
                     ou = ctx.pkg.unit(owner) if ctx.pkg.has_unit(owner) else None
                     ann = next((p.annotation for p in ou.params() if p.arg == pname), None) if ou is not None else None
                     if ann is not None and "ACM" in roles_of_annotation(ann):
-                        ctx.fail("R09.8", u, n, f"the truth value of the caller's lock `{norm(operand)}` decides whether "
+                        ctx.fail(rid, u, n, f"the truth value of the caller's lock `{norm(operand)}` decides whether "
                                  "it is used: a falsy lock object is silently replaced by the no-op lock and the "
-                                 "source is advanced concurrently", node=n)
-    ctx.ok("R09.8", "itertools", "no truth test of a lock parameter")
+                                 "protected section runs concurrently", node=n)
+    ctx.ok(rid, module, "no truth test of a lock parameter")
 
 
 def r09_7(ctx, P) -> None:
